@@ -61,6 +61,11 @@ instance : Monad Out where
 def Out.tag {α} : Out α → Nat
   | .ok _ => 0 | .err _ => 1 | .panic => 2 | .outOfFuel => 3
 
+/-- the error site, if the outcome is an error -/
+def Out.errOf {α} : Out α → Option PErr
+  | .err e => some e
+  | _ => none
+
 structure St where
   rest : Bytes          -- input[position:]   (empty once position ≥ len)
   pos : Nat             -- p.position
@@ -106,44 +111,69 @@ def isFieldChar (c : UInt8) : Bool := isUpper c || isLower c || isDigitC c || c 
 def isNotNl (c : UInt8) : Bool := c ≠ 10
 def isSpTab (c : UInt8) : Bool := c = 32 || c = 9
 
+/-- `if p.next() != ' ' { p.backup() }` -/
+def skipOneSpace (s : St) : St :=
+  match next s with
+  | (some c, s1) => if c = 32 then s1 else s    -- backup
+  | (none, _) => s                              -- backup
+
+/-- `end := p.position; if end > start && p.input[end-1] == '\r' { end-- }`
+    (`s2` is the state at `start`, `s3` the state behind the comment text) -/
+def commentEnd (s2 s3 : St) : Nat :=
+  if s3.pos > s2.pos && s3.line.head? = some 13 then s3.pos - 1 else s3.pos
+
+/-- `if p.next() != '\n' { p.backup() } else { p.lineStart = p.position }` -/
+def closeComment (s4 : St) : Out St :=
+  match next s4 with
+  | (some c, s5) => if c = 10 then .ok { s5 with lineStart := s5.pos, line := [] } else .ok s4
+  | (none, _) => .ok s4
+
+/-- the `'#'` branch of `advance` for a comment on a line of its own, from `if p.lastComment.Len() > 0` to the
+    end of the branch -/
+def appendDoc (s2 s3 : St) : Out St :=
+  -- p.input[end-1] is evaluated only if end > start
+  if s3.pos > s2.pos && !(s3.pos - 1 < s3.len) then .panic else
+  -- p.input[start:end]
+  if !(sliceOk s2.pos (commentEnd s2 s3) s3.len) then .panic else
+  -- if p.lastComment.Len() > 0 { p.lastComment.WriteByte('\n') }; p.lastComment.WriteString(p.input[start:end])
+  closeComment { s3 with
+    lastComment := (if s3.lastComment.length > 0 then s3.lastComment ++ [10] else s3.lastComment)
+      ++ s2.rest.take (commentEnd s2 s3 - s2.pos) }
+
+/-- the `'#'` branch of `advance`; `s` is the state before the `#`, `s1` the state behind it. Returns the state
+    with which the loop continues. -/
+def comment (s s1 : St) : Out St :=
+  -- ownLine := isBlank(p.input[p.lineStart : p.position-1])
+  if !(sliceOk s1.lineStart (s1.pos - 1) s1.len) then .panic else
+  -- if p.next() != ' ' { p.backup() }; start := p.position
+  -- for { c := p.next(); if c < 0 || c == '\n' { p.backup(); break } }
+  match scan isNotNl ((skipOneSpace s1).len + 1) (skipOneSpace s1) with
+  | .ok s3 =>
+    if !(isBlank s.line) then .ok s3              -- if !ownLine { continue }
+    else appendDoc (skipOneSpace s1) s3
+  | .err e => .err e
+  | .panic => .panic
+  | .outOfFuel => .outOfFuel
+
 /-- `func (p *parser) advance() bool` — the loop; the caller computes the result `p.position < len(p.input)`
     from the returned state (`St.more`). -/
 def advanceLoop : Nat → St → Out St
   | 0, _ => .outOfFuel
   | f + 1, s =>
-    let (char, s1) := next s
-    if char = some 10 then                              -- '\n'
-      advanceLoop f { s1 with lineStart := s1.pos, line := [], lastComment := [] }
-    else if char = some 32 || char = some 9 || char = some 13 then    -- ' ', '\t', '\r'
-      advanceLoop f s1
-    else if char = some 35 then                         -- '#'
-      -- ownLine := isBlank(p.input[p.lineStart : p.position-1])
-      if !(sliceOk s1.lineStart (s1.pos - 1) s1.len) then .panic else
-      let ownLine := isBlank s.line
-      -- if p.next() != ' ' { p.backup() }
-      let (c2, s2') := next s1
-      let s2 := if c2 = some 32 then s2' else s1
-      -- start := p.position; for { c := p.next(); if c < 0 || c == '\n' { p.backup(); break } }
-      match scan isNotNl (s2.len + 1) s2 with
-      | .ok s3 =>
-        if !ownLine then advanceLoop f s3               -- continue
-        else
-          -- if p.lastComment.Len() > 0 { p.lastComment.WriteByte('\n') }
-          let lc := if s3.lastComment.length > 0 then s3.lastComment ++ [10] else s3.lastComment
-          -- end := p.position; if end > start && p.input[end-1] == '\r' { end-- }
-          if s3.pos > s2.pos && !(s3.pos - 1 < s3.len) then .panic else
-          let endPos := if s3.pos > s2.pos && s3.line.head? = some 13 then s3.pos - 1 else s3.pos
-          -- p.lastComment.WriteString(p.input[start:end])
-          if !(sliceOk s2.pos endPos s3.len) then .panic else
-          let s4 := { s3 with lastComment := lc ++ s2.rest.take (endPos - s2.pos) }
-          -- if p.next() != '\n' { p.backup() } else { p.lineStart = p.position }
-          let (c5, s5) := next s4
-          if c5 = some 10 then advanceLoop f { s5 with lineStart := s5.pos, line := [] }
-          else advanceLoop f s4
-      | .err e => .err e
-      | .panic => .panic
-      | .outOfFuel => .outOfFuel
-    else .ok s                                          -- backup; break
+    match next s with
+    | (none, _) => .ok s                                -- backup; break
+    | (some c, s1) =>
+      if c = 10 then                                    -- '\n'
+        advanceLoop f { s1 with lineStart := s1.pos, line := [], lastComment := [] }
+      else if c = 32 || c = 9 || c = 13 then            -- ' ', '\t', '\r'
+        advanceLoop f s1
+      else if c = 35 then                               -- '#'
+        match comment s s1 with
+        | .ok s2 => advanceLoop f s2
+        | .err e => .err e
+        | .panic => .panic
+        | .outOfFuel => .outOfFuel
+      else .ok s                                        -- backup; break
 
 def advance (s : St) : Out St := advanceLoop (s.len + 1) s
 
